@@ -6,7 +6,9 @@ Model of `fedjax/core/client_samplers.py` (C13).
     ↦ `lehmer start round` (`start = RandomState(seed).randint(1, 2**31-2)` is an input).
     Python's three-argument `pow` ↦ `powMod` (square-and-multiply, fuel = 64 bits is never the
     limit for the driver; the theorems go through `lehmer_eq`, valid for every round).
-  * `UniformGetClientSampler` ↦ state = round number; ops `sample`, `setRound r`.
+  * `UniformGetClientSampler` ↦ state = round number; ops `sample`, `setRound r`, `failedSample`
+    (a `sample()` whose dataset loading raised: `_round_num += 1` is the last statement, so the
+    state is unchanged).
     numpy's `choice`, jax's `split(PRNGKey(round), n)` and `get_clients` are oracles.
   * `UniformShuffledClientSampler` ↦ state = (position in the client stream, round number); the
     constructor's nested seek loop is `seek`.
@@ -54,6 +56,9 @@ def cohort {Id D K} (o : Oracles Id D K) (start n r : Nat) : List (Id × D × K)
 inductive Op where
   | sample
   | setRound (r : Nat)
+  /-- a `sample()` call that raised while the datasets were being loaded (`get_clients` is an
+  external that may fail): it hands out nothing, so it must not consume the round. -/
+  | failedSample
 deriving Repr
 
 /-- one method call on a sampler whose `_round_num` is `round`:
@@ -62,6 +67,7 @@ def step {Id D K} (o : Oracles Id D K) (start n : Nat) (round : Nat) :
     Op → Nat × Option (List (Id × D × K))
   | .sample => (round + 1, some (cohort o start n round))
   | .setRound r => (r, none)
+  | .failedSample => (round, none)
 
 /-- a history of calls starting at `_round_num = round`: final round number and all returned values. -/
 def run {Id D K} (o : Oracles Id D K) (start n : Nat) :
